@@ -17,7 +17,7 @@ impl Prop for C06 {
         "C06"
     }
     fn rule(&self) -> String {
-        "graphs of all 8 kinds, n in 0..=10 and 21..=34 (parallel path), shapes / shuffled insertion order as C04, unweighted / positive dyadic / tie-rich weights; each graph is evaluated for weighted x wf_improved, and (weighted single-edge graphs) once more after an existing edge was replaced by a heavier one under KeepLast between two calls. Oracle: Floyd-Warshall over the cheapest parallel edge; for u, R = nodes with finite distance TO u (incoming on directed graphs), value (|R|-1)/sum d(v,u), times (|R|-1)/(n-1) with wf_improved, 0 when |R| = 1; tolerance 1e-12 relative (dyadic sums are exact). Exhaustive block: all graphs on <= 3 nodes of the single-edge kinds. Non-trivial = a directed graph where some node's incoming and outgoing distance sums differ, or a disconnected graph evaluated with wf_improved; distinct = distinct serialised case. Name-type independence: for every graph of <= 12 nodes and one in eight up to 64 (34 for path-returning calls) the same calls are repeated with a user-defined node-name type (lossy Display, heavily colliding Hash, Ord unrelated to insertion order) and must give the same order-independent results as with String names (floats within 1e-9).".into()
+        "graphs of all 8 kinds, n in 0..=10 and 21..=34 (parallel path), shapes / shuffled insertion order as C04, unweighted / positive dyadic / tie-rich weights; each graph is evaluated for weighted x wf_improved, and (weighted single-edge graphs) once more after an existing edge was replaced by a heavier one under KeepLast between two calls. Oracle: Floyd-Warshall over the cheapest parallel edge; for u, R = nodes with finite distance TO u (incoming on directed graphs), value (|R|-1)/sum d(v,u), times (|R|-1)/(n-1) with wf_improved, 0 when |R| = 1; tolerance 1e-12 relative (dyadic sums are exact). Exhaustive block: all graphs on <= 3 nodes of the single-edge kinds. Non-trivial = a directed graph where some node's incoming and outgoing distance sums differ, or a disconnected graph evaluated with wf_improved; distinct = distinct serialised case. Name-type independence: for every graph of <= 12 nodes and one in eight up to 64 (34 for path-returning calls) the same calls are repeated with a user-defined node-name type (lossy Display, heavily colliding Hash, Ord unrelated to insertion order) and must give the same order-independent results as with String names (floats within 1e-9). Each call runs in the ambient 16-thread pool or, selected by the case, inside a shared rayon pool of 1, 3, 24 or 64 threads (more threads than nodes for the 21..=60-node class).".into()
     }
     fn assumptions(&self) -> Vec<String> {
         vec!["positive weights".into()]
@@ -80,7 +80,7 @@ impl Prop for C06 {
                 }
                 let ctx = format!("closeness_centrality[{},wf={}]", if weighted { "weighted" } else { "hops" }, wf);
                 out.api_calls += 1;
-                match guard(|| closeness_centrality(&graph, weighted, wf)) {
+                match guard(|| crate::props::c17::in_some_pool(case.perm as u64 / 8 + wf as u64, || closeness_centrality(&graph, weighted, wf))) {
                     Err(p) => out.fail(format!("{}/panic/{}", ctx, panic_class(&p)), p),
                     Ok(Err(e)) => out.fail(format!("{}/error/{}", ctx, kind_of(&e)), e.message.clone()),
                     Ok(Ok(got)) => compare_node_map(&ng, &got, &want, 1e-12, 1e-15, &ctx, &mut out),
